@@ -332,6 +332,8 @@ pub struct Opts {
     /// every identifier of the pool as replacement (otherwise: the globally declared names only
     /// when the pool exceeds this size)
     pub ident_pool_cap: usize,
+    /// how many of the keyword replacements (`self`, `storage`, `fn`) are used for identifiers
+    pub ident_kws: usize,
 }
 
 pub const FAMILIES: [&str; 11] = [
@@ -570,7 +572,7 @@ pub fn mutate(src: &str, o: &Opts) -> Result<(Vec<Mutant>, BTreeMap<&'static str
             pool.dedup();
             pool.retain(|p| p != me);
             pool.push(UNDEF_IDENT.to_string());
-            pool.extend(IDENT_KWS.iter().map(|s| s.to_string()));
+            pool.extend(IDENT_KWS.iter().take(o.ident_kws).map(|s| s.to_string()));
             exp += pool.len();
             for r in pool {
                 push(
@@ -1156,8 +1158,6 @@ pub fn generated_bases(thorough: bool) -> Vec<Base> {
         add("s4p", spaces::s4_pairs(&[crate::gen::Inline::Default]), 7, 6);
         add("s4g", spaces::s4_generics(), 7, 4);
     } else {
-        add("s2-2", spaces::s2(2), 7, 2);
-        add("s3-1", spaces::s3(1), 7, 2);
         add("s3e", spaces::s3_enums(), 7, 1);
         add("s4g", spaces::s4_generics(), 7, 1);
     }
